@@ -224,7 +224,8 @@ def step (s : St) : Ev → St × Reply
     match s.running with
     | none => (s, .refused)
     | some c =>
-      ({ s with running := none, runReg := false }, .aborted c)
+      -- on_timeout raised: the `finally` around the call still completes the managed futures
+      ({ s with caches := upd s.caches c (s.caches c).completeFuts, running := none, runReg := false }, .aborted c)
   | .clear =>
     ({ s with ids := [], caches := fun i => { s.caches i with task := none }, runReg := false }, .done)
   | .shutdown =>
@@ -258,6 +259,8 @@ def trace (s : St) (evs : List Ev) : List Reply := (run s evs).2
 
 /-- cache object c is outstanding: registered with a live timer whose on_timeout has not started -/
 def outstanding (s : St) (c : Nat) : Prop := (s.caches c).task.isSome = true
+
+instance (s : St) (c : Nat) : Decidable (outstanding s c) := by unfold outstanding; infer_instance
 
 /-- `is_pending_task_active(cache)`: a waiting timer, or the executing timeout task while it is still registered -/
 def active (s : St) (c : Nat) : Bool := nameTaken s c
